@@ -163,6 +163,126 @@ func literalFormatOK(typ, format string) (bool, string) {
 	return false, fmt.Sprintf("%d verbs", len(verbs))
 }
 
+// contentValue: v is the token's content, unmodified: recv.content itself, the value of a
+// (guarded) type assertion on it, or a widening conversion of that to the formatter's parameter type.
+func contentValue(a *FnA, v ssa.Value) bool {
+	for depth := 0; depth < 4; depth++ {
+		d := a.Desc(v)
+		if d == "recv.content" {
+			return true
+		}
+		switch x := v.(type) {
+		case *ssa.Extract:
+			if ta, ok := x.Tuple.(*ssa.TypeAssert); ok && x.Index == 0 {
+				v = ta.X
+				continue
+			}
+		case *ssa.TypeAssert:
+			v = x.X
+			continue
+		case *ssa.Convert:
+			// only widening numeric conversions keep the value
+			from, ok1 := x.X.Type().Underlying().(*types.Basic)
+			to, ok2 := x.Type().Underlying().(*types.Basic)
+			if ok1 && ok2 && widening(from, to) {
+				v = x.X
+				continue
+			}
+		case *ssa.MakeInterface:
+			v = x.X
+			continue
+		case *ssa.ChangeType:
+			v = x.X
+			continue
+		}
+		return false
+	}
+	return false
+}
+
+func widening(from, to *types.Basic) bool {
+	size := map[types.BasicKind]int{types.Int8: 8, types.Int16: 16, types.Int32: 32, types.Int64: 64, types.Int: 63, types.Uint8: 8, types.Uint16: 16, types.Uint32: 32, types.Uint64: 64, types.Uint: 63, types.Uintptr: 63, types.Float32: 32, types.Float64: 64, types.Complex64: 64, types.Complex128: 128}
+	fs, ok1 := size[from.Kind()]
+	ts, ok2 := size[to.Kind()]
+	if !ok1 || !ok2 {
+		return false
+	}
+	fi, ti := from.Info(), to.Info()
+	switch {
+	case fi&types.IsFloat != 0 && ti&types.IsFloat != 0:
+		return ts >= fs
+	case fi&types.IsComplex != 0 && ti&types.IsComplex != 0:
+		return ts >= fs
+	case fi&types.IsInteger != 0 && ti&types.IsInteger != 0:
+		if (fi&types.IsUnsigned != 0) == (ti&types.IsUnsigned != 0) {
+			return ts >= fs
+		}
+		return fi&types.IsUnsigned != 0 && ts > fs // unsigned into a strictly wider signed type
+	}
+	return false
+}
+
+// litTemplateOK judges the normalised producer of a literal of type typ: a single value printed
+// bare (only for the default type of its constant kind) or wrapped in a conversion to typ.
+func litTemplateOK(a *FnA, typ string, segs []tseg) (ok bool, why string, bare bool) {
+	valOK := func(t tseg) (bool, string) {
+		if t.val == nil {
+			return false, "no value"
+		}
+		if !contentValue(a, t.val) {
+			return false, "the value printed is " + a.Desc(t.val) + ", not the token's content"
+		}
+		if !valueVerbOK(typ, t.verb) {
+			return false, "verb %" + t.verb + " does not print a Go constant of type " + typ
+		}
+		if t.bits != 0 {
+			want := map[string]int{"float64": 64, "float32": 32, "complex128": 128, "complex64": 64}[typ]
+			if want != 0 && t.bits != want {
+				return false, fmt.Sprintf("formatted with bit size %d, the type needs %d (digits would be dropped)", t.bits, want)
+			}
+		}
+		return true, ""
+	}
+	switch len(segs) {
+	case 1:
+		if ok, why := valOK(segs[0]); !ok {
+			return false, why, true
+		}
+		if !defaultTypes[typ] {
+			return false, "a bare constant has the default type of its kind, not " + typ + ": the value must be wrapped in a conversion", true
+		}
+		return true, "bare, default type", true
+	case 2:
+		// TYPE value  (complex: fmt supplies the parentheses)
+		if (segs[0].verb == "T" && segs[0].val != nil && contentValue(a, segs[0].val)) || (segs[0].val == nil && segs[0].lit == typ) {
+			if !strings.HasPrefix(typ, "complex") {
+				return false, "conversion without parentheses", false
+			}
+			if ok, why := valOK(segs[1]); !ok {
+				return false, why, false
+			}
+			return true, "conversion (the complex value carries its own parentheses)", false
+		}
+	case 3:
+		// "TYPE(" value ")"
+		if segs[0].val == nil && segs[0].lit == typ+"(" && segs[2].val == nil && segs[2].lit == ")" {
+			if ok, why := valOK(segs[1]); !ok {
+				return false, why, false
+			}
+			return true, "conversion", false
+		}
+	case 4:
+		// %T "(" value ")"
+		if segs[0].verb == "T" && segs[0].val != nil && contentValue(a, segs[0].val) && segs[1].lit == "(" && segs[1].val == nil && segs[3].lit == ")" && segs[3].val == nil {
+			if ok, why := valOK(segs[2]); !ok {
+				return false, why, false
+			}
+			return true, "conversion", false
+		}
+	}
+	return false, "the text is not a single Go constant of type " + typ + " (bare or TYPE(value))", false
+}
+
 // floatGuard classifies a way: does it establish that the text has no '.' and no 'e' (intLike), or
 // that it has one of them (notIntLike)?
 func floatGuard(w Facts, textDesc string) (intLike, notIntLike bool, unknown []string) {
@@ -291,7 +411,16 @@ func ruleTokenRender(c *Ctx, part string) []Obligation {
 				leaves = append(leaves, leaf{data, a.WaysTo(s.Call.Block())})
 			}
 			for _, lf := range leaves {
-				p := a.producerOf(lf.v)
+				// split off a constant suffix (the float ".0"), then normalise the producer to a template
+				base, suffix := stripConv(lf.v), ""
+				if b, ok := base.(*ssa.BinOp); ok && b.Op == token.ADD {
+					if sv, ok := constString(b.Y); ok {
+						if _, lhsConst := constString(b.X); !lhsConst {
+							base, suffix = stripConv(b.X), sv
+						}
+					}
+				}
+				segs := a.template(base)
 				for _, way := range lf.ways {
 					lt := litTypeOf(way)
 					construct := "literal of type " + lt
@@ -299,38 +428,23 @@ func ruleTokenRender(c *Ctx, part string) []Obligation {
 						o.undecided(fn, "literal write with unknown content type", s.Call.Pos(), "way %s", way)
 						continue
 					}
-					if p.kind != "sprintf" {
-						o.add(Violated, fn, construct+" is formatted by fmt with a Go-syntax verb", s.Call.Pos(), true, "value %s is not produced by a recognised formatter", a.Desc(lf.v))
-						continue
-					}
-					okArgs := true
-					for _, d := range p.argDesc {
-						if d != "recv.content" {
-							okArgs = false
-						}
-					}
-					ok, why := literalFormatOK(lt, p.format)
-					_, verbs := parseFormat(p.format)
-					key := construct
-					if seenLit[key+p.format+p.suffix] {
-						// same type reached by another way with the same producer (float guard ways)
-					}
-					seenLit[key+p.format+p.suffix] = true
-					o.req(ok && okArgs && len(verbs) == len(p.args), fn, construct+": format "+fmt.Sprintf("%q", p.format), s.Call.Pos(), "%s; arguments %v (must all be the token's content, unmodified)", why, p.argDesc)
+					ok, why, bare := litTemplateOK(a, lt, segs)
+					seenLit[construct+"%"] = true
+					o.req(ok, fn, construct+": "+fmt.Sprint(segs), s.Call.Pos(), "%s", why)
 					// float guard
-					text := a.Desc(p.base)
+					text := a.Desc(base)
 					il, nil_, unk := floatGuard(way, text)
 					switch {
-					case lt == "float64" && defaultTypes[lt] && len(verbs) == 1:
-						if p.suffix == ".0" {
+					case lt == "float64" && bare:
+						if suffix == ".0" {
 							o.req(il && len(unk) == 0, fn, "float64: \".0\" appended only if the text has neither '.' nor 'e'", s.Call.Pos(), "way %s (unrecognised tests: %v)", way, unk)
-						} else if p.suffix == "" {
+						} else if suffix == "" {
 							o.req(nil_ && len(unk) == 0, fn, "float64: bare text only if it has a '.' or an 'e'", s.Call.Pos(), "an integral float64 without \".0\" is read back as an int; a test other than for \".\" / \"e\" (e.g. \"e+\") lets 1e-07 through; way %s (unrecognised tests: %v)", way, unk)
 						} else {
-							o.add(Violated, fn, "float64: suffix", s.Call.Pos(), true, "unexpected suffix %q", p.suffix)
+							o.add(Violated, fn, "float64: suffix", s.Call.Pos(), true, "unexpected suffix %q", suffix)
 						}
 					default:
-						o.req(p.suffix == "", fn, construct+": formatter's result written unmodified", s.Call.Pos(), "suffix %q appended", p.suffix)
+						o.req(suffix == "", fn, construct+": formatter's result written unmodified", s.Call.Pos(), "suffix %q appended", suffix)
 					}
 				}
 			}
@@ -389,22 +503,9 @@ func ruleTokenRender(c *Ctx, part string) []Obligation {
 	}
 	if part == "T-LITFMT" {
 		// the literal type switch covers exactly the documented types
-		types17 := map[string]bool{}
-		for k := range seenLit {
-			for _, t := range documentedLitTypes {
-				if strings.HasPrefix(k, "literal of type "+t+"%") || strings.HasPrefix(k, "literal of type "+t+"b") || strings.HasPrefix(k, "literal of type "+t+"\"") {
-					types17[t] = true
-				}
-			}
-		}
 		covered := map[string]bool{}
 		for k := range seenLit {
-			rest := strings.TrimPrefix(k, "literal of type ")
-			for _, t := range documentedLitTypes {
-				if strings.HasPrefix(rest, t) && (len(rest) == len(t) || !isIdentChar(rest[len(t)])) {
-					covered[t] = true
-				}
-			}
+			covered[strings.TrimSuffix(strings.TrimPrefix(k, "literal of type "), "%")] = true
 		}
 		for _, t := range documentedLitTypes {
 			o.req(covered[t], fn, "documented literal type "+t+" is supported", f.Pos(), "README: Lit supports bool, string, int, complex128, float64, float32, int8..int64, uint..uint64, uintptr, complex64")
